@@ -59,9 +59,25 @@ def install(I):
     I.contracts['(%s).Defined' % CID] = lambda I, a, ins: I.equal(a[0][0], '') is not True if isinstance(a[0][0], str) else True
     I.contracts['(%s).Equals' % CID] = lambda I, a, ins: I.equal(a[0], a[1])
 
+    def cid_from_bytes(I, args, ins):
+        from .base import mk_error
+        b = args[0]
+        t = I.bytes_term(b)
+        n = I.len_of(b)
+        valid = I.fresh_bool('cid-parses')
+        # bytes produced by Cid.Bytes() always parse back to the same CID; other bytes may or may not parse
+        if isinstance(b, TermBytes) and T.app_name(b.t) is None and not I.path.ghost.get('cid_bytes_known', {}).get(b.t.sexpr()):
+            if not I.fork_bool(valid, 'cid-parse'):
+                tt = I.prog.type_by_str(CID)
+                return (0, SV([''], tt.id if tt else 0), mk_error(I, 'invalid cid'))
+        return (n, cid_value(I, t), None)
+
+    I.contracts['github.com/ipfs/go-cid.CidFromBytes'] = cid_from_bytes
+
 
 def bytes_of(I, c):
     s = c[0]
+    I.path.ghost.setdefault('cid_bytes_known', {})[I.str_term(s).sexpr()] = True
     if isinstance(s, str):
         if s == '':
             return SliceVal(AV([]), 0, 0, 0)
